@@ -150,6 +150,11 @@ class URLInfo(object):
             remaining = '{}:{}'.format(scheme, remaining)
             scheme = default_scheme
 
+        if not is_ascii_compatible_encoding(encoding):
+            # Percent-encoding works on the bytes of an ASCII superset. As
+            # browsers do for UTF-16 documents, fall back to UTF-8.
+            encoding = 'utf-8'
+
         info = URLInfo()
         info.encoding = encoding
 
@@ -522,6 +527,17 @@ def normalize_fragment(text, encoding='utf-8'):
     '''
     path = percent_encode(text, encoding=encoding, encode_set=FRAGMENT_ENCODE_SET)
     return uppercase_percent_encoding(path)
+
+
+@functools.lru_cache()
+def is_ascii_compatible_encoding(encoding):
+    '''Return whether the codec encodes ASCII characters as themselves.'''
+    ascii_text = ''.join(chr(number) for number in range(0x20, 0x7f))
+
+    try:
+        return ascii_text.encode(encoding) == ascii_text.encode('ascii')
+    except (LookupError, UnicodeError, TypeError):
+        return False
 
 
 def normalize_username(text, encoding='utf-8'):
